@@ -36,7 +36,7 @@ HISTORY_CHECK = True   # last runs of every chunk are re-observed alone in a fre
 
 TIERS = {
     "quick":    {"runs": 1280,  "chunk": 40,  "hash_seeds": [0, 1], "max_steps": 24, "timeout": 900},
-    "thorough": {"runs": 12000, "chunk": 150, "max_wall": 2400, "hash_seeds": [0, 1, 2, 7], "max_steps": 30, "timeout": 3400},
+    "thorough": {"history_check_cap": 200, "runs": 12000, "chunk": 150, "max_wall": 2400, "hash_seeds": [0, 1, 2, 7], "max_steps": 30, "timeout": 3400},
     "selftest": {"runs": 160,   "chunk": 20,  "hash_seeds": [0, 3], "max_steps": 24, "timeout": 300},
 }
 REQUIRED_PROBES = {"quick": ["unused_vtimezone_present", "unknown_id_used", "custom_id_known_via_cache",
